@@ -4,6 +4,8 @@ import Enc.Driver.ProtoRewrite
 import Enc.Driver.ProtoTemplate
 import Enc.Driver.Iso
 import Enc.Driver.Thrift
+import Enc.Driver.ThriftEmbed
+import Enc.Driver.ThriftUnionEmbed
 import Enc.Driver.Json
 import Enc.Driver.JsonBuf
 import Enc.Driver.JsonStrHelpers
@@ -26,6 +28,8 @@ def dispatch (op : String) (args : List String) : Option (String × String × St
   else if op == "proto.typeof" || op == "proto.tmpltree" || op == "proto.tmplvalue" then Driver.ProtoTemplate.handle op args
   else if op.startsWith "proto." then Driver.Proto.handle op args
   else if op.startsWith "iso." then Driver.Iso.handle op args
+  else if op == "thrift.embmarshal" || op == "thrift.embdecode" then Driver.ThriftEmbed.handle op args
+  else if op == "thrift.uembdecode" then Driver.ThriftUnionEmbed.handle op args
   else if op.startsWith "thrift." then Driver.Thrift.handle op args
   else if op.startsWith "conc." then Driver.Conc.handle op args
   else if op == "json.mapkeyorder" || op == "json.mapkeydec" then Driver.JsonMapKeys.handle op args
